@@ -8,6 +8,10 @@ pub enum KOutcome {
     Accept,
     Refuse,
     Timeout,
+    /// the connect fails at once with this errno (network unreachable, host unreachable, reset,
+    /// interrupted, permission denied by a firewall, ...): whatever a real `connect` may answer
+    /// besides "refused" and a timeout
+    Fail(i32),
 }
 
 #[derive(Serialize, Deserialize, Clone, Debug, PartialEq)]
@@ -87,4 +91,9 @@ pub struct KChild {
     /// what a client does must not depend on how much of its diagnostics is switched on
     #[serde(default)]
     pub rust_log: Option<String>,
+    /// things that happen to files in the client's working directory while it runs, each tied to
+    /// a connect attempt (index into `connects`): (attempt, path, "delete" | "garble" | "truncate").
+    /// Carried out by the connect seam just before it answers, i.e. at a scheduled point.
+    #[serde(default)]
+    pub file_ops: Vec<(usize, String, String)>,
 }
